@@ -11,6 +11,8 @@ import ZCV.Model.TreeLoad
 import ZCV.Model.Url
 import ZCV.Spec.Url
 import ZCV.Model.Resources
+import ZCV.Model.Logger
+import ZCV.Spec.Logger
 /-! Line-protocol driver: one request per line, one answer per line. Imports Spec + Model + Gen only. -/
 open ZCV ZCV.SExp ZCV.Codec ZCV.Cfg
 
@@ -128,6 +130,28 @@ def handle (st : DState) : SExp → DState × SExp
         let r := Res.runRes (fun p => pts.contains p) i ss
         .list [ofBool r.2, ofBool (Res.wb r.1 []), .list (r.1.map encResEv)]
       | _, _, _ => .atom "bad-request")
+  -- (loglevel "s") → (model spec)
+  | .list [.atom "loglevel", .str v] =>
+    (st, .list [encConv ((Log.loggingLevel v).map Val.int), encConv ((LogSpec.loggingLevel v).map Val.int)])
+  -- (filekind "path" max old when interval enc delay)
+  | .list [.atom "filekind", .str p, mx, old, wh, iv, enc, dl] =>
+    (st, match getNat? mx, getNat? old, getNat? iv with
+      | some a, some b, some c =>
+        (match Log.fileHandlerKind { path := p, maxBytes := a, oldFiles := b, when := optStr wh, interval := c, encoding := optStr enc, delay := getBool dl } with
+         | .ok .stderr => .atom "stderr" | .ok .stdout => .atom "stdout" | .ok .plainFile => .atom "file"
+         | .ok .rotating => .atom "rotating" | .ok (.timedRotating i) => .list [.atom "timed", ofNat i]
+         | .error _ => .atom "ValueError")
+      | _, _, _ => .atom "bad-request")
+  -- (regrun op…) with op = create | (drop i) | (close i) | reopen | closeall → ((registry…) ((id alive closed reopened)…))
+  | .list (.atom "regrun" :: ops) =>
+    (st, match ops.mapM (fun o => match o with
+          | .atom "create" => some Log.Op.create | .atom "reopen" => some Log.Op.reopenFiles | .atom "closeall" => some Log.Op.closeFiles
+          | .list [.atom "drop", i] => (getNat? i).map Log.Op.drop | .list [.atom "close", i] => (getNat? i).map Log.Op.close
+          | _ => none) with
+      | some os =>
+        let r := Log.runReg os
+        .list [.list (r.registry.map ofNat), .list (r.handlers.map fun h => .list [ofNat h.id, ofBool h.alive, ofBool h.closed, ofNat h.reopened])]
+      | none => .atom "bad-request")
   -- (url "s") → (isPath-model isPath-spec "urlnormalize" normalForm-of-result)
   | .list [.atom "url", .str u] =>
     (st, .list [ofBool (Url.isPath u), ofBool (UrlSpec.isPath u), .str (Url.urlnormalize u), ofBool (UrlSpec.normalForm (Url.urlnormalize u))])
